@@ -42,10 +42,21 @@ def kill_run(run_id, procs):
             pass
     needle = ("VT_RUN_ID=" + run_id).encode()
     me = os.getpid()
+    sessions = {str(p.pid) for p in procs}
     for _ in range(2):
         for d in os.listdir("/proc"):
             if not d.isdigit() or int(d) == me:
                 continue
+            # the ebuild daemon gets a scrubbed environment and its own process group, but it
+            # stays in the worker's session (workers are session leaders)
+            try:
+                with open("/proc/%s/stat" % d) as f:
+                    sid = f.read().rsplit(")", 1)[1].split()[3]
+                if sid in sessions:
+                    os.kill(int(d), signal.SIGKILL)
+                    continue
+            except (OSError, IndexError, ProcessLookupError):
+                pass
             try:
                 with open("/proc/%s/environ" % d, "rb") as f:
                     env = f.read()
